@@ -12,7 +12,7 @@ import math
 import operator
 from calendar import isleap, leapdays
 from collections.abc import Mapping
-from decimal import Decimal
+from decimal import Decimal, localcontext
 from typing import Any, Generic, Optional, SupportsFloat, SupportsIndex, TypeVar, Union
 from urllib.parse import urlsplit
 
@@ -245,14 +245,17 @@ def months2days(year: int, month: int, months_delta: int) -> int:
 
 
 def round_number(value: Union[float, int, Decimal]) -> Union[float, int, Decimal]:
-    if math.isnan(value) or math.isinf(value):
+    if isinstance(value, float):
+        if math.isnan(value) or math.isinf(value):
+            return value
+    elif isinstance(value, Decimal) and not value.is_finite():
         return value
 
     number = Decimal(value)
-    if number > 0:
-        return type(value)(number.quantize(Decimal('1'), rounding='ROUND_HALF_UP'))
-    else:
-        return type(value)(number.quantize(Decimal('1'), rounding='ROUND_HALF_DOWN'))
+    rounding = 'ROUND_HALF_UP' if number > 0 else 'ROUND_HALF_DOWN'
+    with localcontext() as ctx:
+        ctx.prec = max(ctx.prec, number.adjusted() + 2)
+        return type(value)(number.quantize(Decimal('1'), rounding=rounding))
 
 
 def normalized_seconds(seconds: Union[int, Decimal]) -> str:
